@@ -254,6 +254,12 @@ func (w *c14watch) quiescent(strict bool, d time.Duration) (exec.VerifManagerSna
 	return last, false
 }
 
+func (w *c14watch) snapshots() int {
+	w.mu.Lock()
+	defer w.mu.Unlock()
+	return len(w.lastSnap)
+}
+
 // ---------------------------------------------------------------- (b) live manager
 
 type c14ev struct {
@@ -396,7 +402,13 @@ func runC14live(t *vf.T, c c14live) {
 			pending = nil
 		}
 	}
-	snap, ok := w.quiescent(true, 3*time.Second)
+	// generous: the manager settles within milliseconds, but on a starved host its goroutine may
+	// not run for seconds; a manager that never published its state cannot be judged
+	snap, ok := w.quiescent(true, 30*time.Second)
+	if !ok && w.snapshots() == 0 {
+		t.Inconclusive("the manager loop published no state within 30 s")
+		return
+	}
 	if !ok {
 		t.Violate(sig+" not-quiescent", fmt.Sprintf("every granted proc was returned and every other request cancelled, but the manager still shows need=%d queue=%d machines=%+v", snap.Need, snap.QueueLen, snap.Machines))
 	}
@@ -506,7 +518,11 @@ func runC14e2e(t *vf.T, c c14e2e) {
 	}
 	// After a failed run, tasks of the run that were still waiting for a machine stay queued (Eval
 	// returns at the first error); they hold no procs. After a successful run nothing may remain.
-	snap, ok := w.quiescent(out.RunErr == nil, 8*time.Second)
+	snap, ok := w.quiescent(out.RunErr == nil, 30*time.Second)
+	if !ok && w.snapshots() == 0 {
+		t.Inconclusive("the manager loop published no state within 30 s")
+		return
+	}
 	if !ok {
 		t.Violate(sig+" procs-leaked", fmt.Sprintf("Run returned (err=%v) but the manager still shows need=%d queued-procs=%d machines=%+v", out.RunErr, snap.Need, snap.QueueProcs, snap.Machines))
 	}
